@@ -19,19 +19,21 @@
 (*    returns: nothing in flight, or the grace period is over), Close (one *)
 (*    Logger.Close), CloseDone, Ret.  The NEW instance's startup callbacks *)
 (*    run BEFORE the old instance's shutdown callbacks.                    *)
-(*  - httpserver/logger.go Logger.Start: the file is opened (created);     *)
-(*    with rotate_disable the handle (O_APPEND) is the writer, otherwise   *)
-(*    it is closed again and roller.go GetLogWriter hands out THE rolling  *)
-(*    writer of that file: a process-global map keyed by the absolute file *)
-(*    name, never pruned - shared by every site and directive naming the   *)
-(*    file, by the old and the new instance of a reload, and by every      *)
-(*    later start in the process.  The settings of the writer are those of *)
-(*    the Logger that created the map entry.                               *)
+(*  - httpserver/logger.go Logger.Start: the file is opened (created) and  *)
+(*    closed again.  With rotate_disable the writer is the Logger's own    *)
+(*    plainFile (O_APPEND, opened by the first Write); otherwise roller.go *)
+(*    GetLogWriter hands out THE rolling writer of that file: a            *)
+(*    process-global map keyed by the absolute file name, never pruned -   *)
+(*    shared by every site and directive naming the file, by the old and   *)
+(*    the new instance of a reload, and by every later start in the        *)
+(*    process.  The settings of the writer are those of the Logger that    *)
+(*    created the map entry.                                               *)
 (*  - Logger.Close: closes the handle / calls lumberjack's Close on the    *)
-(*    SHARED writer (no reference count).  lumberjack re-opens on the next *)
-(*    Write (openExistingOrNew), which is what keeps the new instance of a *)
-(*    reload logging after the old instance's shutdown callback closed the *)
-(*    file under its feet (REOPEN).                                        *)
+(*    SHARED writer (no reference count).  Both writers re-open for a      *)
+(*    Write after Close (lumberjack: openExistingOrNew), which is what     *)
+(*    keeps the new instance of a reload logging after the old instance's  *)
+(*    shutdown callback closed the file under its feet (REOPEN); the       *)
+(*    plainFile closes again right after such a late entry.                *)
 (*  - Logger.Println -> log.Logger.Output: the entry is formatted into a   *)
 (*    buffer and handed to the writer with ONE Write call; a Write error   *)
 (*    is discarded.  lumberjack.Logger.Write (one critical section of its  *)
@@ -48,16 +50,16 @@
 (* length B with CapUnit*B <= 1 MB < (CapUnit+1)*B, so "does not fit" is   *)
 (* n + 1 > size * CapUnit both in Write (>) and in openExistingOrNew (>=). *)
 (*                                                                         *)
-(* Deviations of the code from the declarative part, found with this       *)
-(* model (each a constant; FALSE = the design the properties hold for):    *)
-(*  - LEAK_RAW: a load that is rejected after its startup callbacks ran    *)
-(*    (a later callback fails, a port is in use) never runs the shutdown   *)
-(*    callbacks of the rejected instance: the handles its rotate_disable   *)
-(*    sinks opened stay open for the life of the process.                  *)
-(*  - DROP_LATE_RAW: a request that outlives the grace period of a reload  *)
-(*    or stop writes its entry after Logger.Close; the rolling writer      *)
-(*    re-opens, a rotate_disable handle answers `file already closed`,     *)
-(*    which log.Logger discards: the entry is lost without a trace.        *)
+(* Deviation of the code as found from the declarative part (repaired in   *)
+(* /repo; the constant is FALSE in the cfgs of the pipeline):              *)
+(*  - EAGER_RAW: Logger.Start kept the handle it opened as the writer of a *)
+(*    rotate_disable sink.  (a) A load that is rejected after its startup  *)
+(*    callbacks ran (a later callback fails, a port is in use) never runs  *)
+(*    the shutdown callbacks of the rejected instance: the handle stayed   *)
+(*    open for the life of the process.  (b) A request that outlives the   *)
+(*    grace period of a reload or stop writes its entry after Logger.Close *)
+(*    - the handle answered `file already closed`, which log.Logger        *)
+(*    discards: the entry was lost without a trace.                        *)
 (* Hypothetical breakages, for showing that the properties are not vacuous *)
 (* (`_neg` cfgs): REOPEN = FALSE (Close of the shared writer is final),    *)
 (* SPLIT_WRITE (an entry reaches the writer in two Write calls).           *)
@@ -71,7 +73,7 @@ CONSTANTS CfgNames,      \* the configurations of CfgTable used
           MaxConc,       \* requests in flight per instance
           CapUnit,       \* entries that fit into 1 MB (the unit of rotate_size)
           GRACE,         \* the grace period of a reload / stop may end with a request in flight
-          LEAK_RAW, DROP_LATE_RAW, REOPEN, SPLIT_WRITE
+          EAGER_RAW, REOPEN, SPLIT_WRITE
 
 \* ---- configurations ------------------------------------------------------------------------
 \* files f1, f2 are rolled (the default), r1 is written with rotate_disable; a file has one mode
@@ -120,7 +122,7 @@ VARIABLES
     inst,              \* [gen -> [cfg, st]]
     att, cls,          \* loggers (<<gen, site, idx>>) whose Start / Close has run
     lj,                \* roller.go `lumberjacks` + the lumberjack.Logger behind each entry
-    rawopen,           \* loggers holding an open O_APPEND handle of their own
+    rawopen,           \* loggers whose own O_APPEND handle (rotate_disable) is open
     cur, bk,           \* file system: the current file and its backups (oldest first), as pieces <<id, "a"|"b">>
     gone, dropped,     \* <<file, id>> removed by the mill / entries whose Write failed (history variables)
     late,              \* ids written by a logger after its Close (history variable)
@@ -193,9 +195,10 @@ Attach ==
            sk == SinkAt(op.c, p)
            f == sk.file
        IN /\ att' = att \cup {lg}
-          /\ IF f \in RawFiles
-             THEN rawopen' = rawopen \cup {lg} /\ UNCHANGED lj     \* os.OpenFile(O_APPEND|O_CREATE), kept
-             ELSE /\ UNCHANGED rawopen                             \* opened, closed again, GetLogWriter:
+          /\ IF f \in RawFiles                                     \* os.OpenFile(O_APPEND|O_CREATE), closed again
+             THEN /\ rawopen' = (IF EAGER_RAW THEN rawopen \cup {lg} ELSE rawopen)    \* (as found: kept)
+                  /\ UNCHANGED lj
+             ELSE /\ UNCHANGED rawopen                             \* GetLogWriter:
                   /\ lj' = IF lj[f].made THEN lj                   \* the writer that is there, as it is
                            ELSE [lj EXCEPT ![f] = [NoLj EXCEPT !.made = TRUE, !.size = sk.size, !.keep = sk.keep]]
     /\ k' = k + 1
@@ -208,17 +211,16 @@ AttachDone ==
     /\ UNCHANGED <<hist, op, k, g, old, inst, att, cls, lj, rawopen, fs, infl, graceOn>>
 
 \* the load is rejected after the startup callbacks: the instance is discarded; its shutdown
-\* callbacks never run.  Design: what Logger.Start opened is closed again; LEAK_RAW: it stays
+\* callbacks never run (whatever a startup callback left open stays open)
 Reject ==
     /\ pc = "reject"
     /\ inst' = [inst EXCEPT ![g].st = "rejected"]
-    /\ rawopen' = (IF LEAK_RAW THEN rawopen ELSE rawopen \ LoggersOf(g))
     /\ pc' = "fail"
-    /\ UNCHANGED <<hist, op, k, g, old, att, cls, lj, fs, infl, graceOn>>
+    /\ UNCHANGED <<hist, op, k, g, old, att, cls, lj, rawopen, fs, infl, graceOn>>
 
-\* (LEAK_RAW) the handle of a rejected instance goes away later: a finalizer, a future repair
+\* (EAGER_RAW) the handle of a rejected instance goes away later, if ever: a finalizer
 Reap(lg) ==
-    /\ LEAK_RAW /\ lg \in rawopen /\ inst[lg[1]].st = "rejected"
+    /\ EAGER_RAW /\ lg \in rawopen /\ inst[lg[1]].st = "rejected"
     /\ rawopen' = rawopen \ {lg}
     /\ UNCHANGED <<ctl, inst, att, cls, lj, fs, infl, graceOn>>
 
@@ -315,20 +317,21 @@ Write(x, s, i) ==
           /\ half' = (IF split THEN [f |-> f, id |-> id, lg |-> lg] ELSE half)
           /\ IF f \in RawFiles
              THEN /\ UNCHANGED <<lj, bk, mill, clob>>
-                  /\ IF lg \in rawopen
-                     THEN cur' = [cur EXCEPT ![f] = @ \o ps] /\ UNCHANGED dropped     \* O_APPEND: at the end
-                     ELSE /\ DROP_LATE_RAW                                            \* `file already closed`, discarded
-                          /\ dropped' = dropped \cup {id} /\ UNCHANGED cur
+                  /\ IF EAGER_RAW /\ lg \notin rawopen
+                     THEN dropped' = dropped \cup {id} /\ UNCHANGED <<cur, rawopen>>    \* `file already closed`, discarded
+                     ELSE /\ cur' = [cur EXCEPT ![f] = @ \o ps]                         \* O_APPEND: at the end
+                          /\ rawopen' = (IF lg \in cls THEN rawopen ELSE rawopen \cup {lg})   \* opened on demand; a late entry: closed again
+                          /\ UNCHANGED dropped
              ELSE IF lj[f].open \/ REOPEN
                   THEN LET r == LjWrite(f, ps, 1) IN
                        /\ lj' = [lj EXCEPT ![f] = r.lj]
                        /\ cur' = [cur EXCEPT ![f] = r.cur] /\ bk' = [bk EXCEPT ![f] = r.bk]
                        /\ mill' = [mill EXCEPT ![f] = r.mill]
                        /\ clob' = (clob \/ r.clob)
-                       /\ UNCHANGED dropped
+                       /\ UNCHANGED <<dropped, rawopen>>
                   ELSE /\ dropped' = dropped \cup {id}          \* (REOPEN = FALSE) the closed writer refuses
-                       /\ UNCHANGED <<lj, cur, bk, mill, clob>>
-    /\ UNCHANGED <<ctl, inst, att, cls, rawopen, gone, infl, graceOn>>
+                       /\ UNCHANGED <<lj, cur, bk, mill, clob, rawopen>>
+    /\ UNCHANGED <<ctl, inst, att, cls, gone, infl, graceOn>>
 
 \* (SPLIT_WRITE only) the second Write call of the entry
 WriteRest ==
@@ -409,18 +412,17 @@ SharedFileSingleWriter ==
 
 AtRest == pc = "idle" /\ \A x \in Gens : infl[x] = 0
 Users(f) == {lg \in att \ cls : inst[lg[1]].st = "serving" /\ SinkOf(lg).file = f}
-\* between operations no handle is open on a file that no serving instance logs to, and the
-\* rotate_disable handles are exactly those of the serving instance's sinks.  (The converse for
-\* rolled files is NOT a property of the design: the shared writer is closed by the old
-\* instance's shutdown callback under the new instance's feet and re-opened by the next Write.)
+\* between operations no handle is open on a file that no serving instance logs to, and every
+\* rotate_disable handle is that of a sink of the serving instance.  (The converse - users, hence
+\* open - is NOT a property of the design: both writers open on demand, and the shared rolling
+\* writer is closed by the old instance's shutdown callback under the new instance's feet.)
 ClosedWhenLastUserGone ==
     AtRest => /\ \A f \in Files : Handles(f) # {} => Users(f) # {}
-              /\ rawopen = {lg \in att \ cls : inst[lg[1]].st = "serving" /\ SinkOf(lg).file \in RawFiles}
+              /\ rawopen \subseteq {lg \in att \ cls : inst[lg[1]].st = "serving"}
 \* a serving instance has every one of its loggers started and none closed - whatever loads were
 \* rejected, whatever old instance ran its shutdown callbacks meanwhile
 ServingHasItsWriters ==
-    \A x \in Serving : /\ LoggersOf(x) \subseteq att \ cls
-                       /\ \A lg \in LoggersOf(x) : SinkOf(lg).file \in RawFiles => lg \in rawopen
+    \A x \in Serving : LoggersOf(x) \subseteq att \ cls
 \* nothing is written through a logger after its Close (GRACE = FALSE: the drain waits)
 NoWriteToClosed == late = {}
 
